@@ -21,6 +21,7 @@ import (
 
 	"verifharness/hx"
 	"verifharness/mods/all"
+	"verifharness/mods/service"
 )
 
 type replica struct {
@@ -35,7 +36,9 @@ func newReplica() *replica {
 
 // runners lists the module scenarios replicated by `det hist`; extended as modules are modelled.
 func runners(env *hx.Env) map[string]hx.Runner {
-	return all.Runners(env)
+	m := all.Runners(env)
+	m["service"] = service.New(env) // not in the genesis registry (own C12 slice), but replicated here
+	return m
 }
 
 func kvDigest(env *hx.Env, ctx sdk.Context, store string) string {
